@@ -207,7 +207,7 @@ def run(ctx):
     cases = []      # {"sig_head", "src", "lint", "trigger", "placement"}
     for t in ts:
         for pname, src in placements(t, quick):
-            cases.append({"lint": t["lint"], "trigger": t["name"], "placement": pname, "src": src, "single": True})
+            cases.append({"lint": t["lint"], "trigger": t["name"], "placement": pname, "src": src, "single": True, "kind": t["kind"]})
     n_single = len(cases)
     for pname, a, b, src in pair_programs(ts, quick):
         cases.append({"lint": f"{a['lint']} + {b['lint']}", "trigger": f"{a['name']} then {b['name']}", "placement": pname, "src": src, "single": False,
@@ -224,14 +224,16 @@ def run(ctx):
     fired = {}
     live = []
     failed_single = set()
+    deferred = []
     for i, c in enumerate(cases):
         r0, f0 = res[2 * i], res[2 * i + 1]
         n_exec += 2
         if "parse_errors" in r0:
             raise Machinery(f"template does not parse ({c['trigger']} / {c['placement']}): {r0['parse_errors'][0]['message']}\n{c['src']}")
-        if ("panic" in f0 or "crash" in f0) and not c["single"] and single_fails(failed_single, c):
-            ctx.outcome("pair not judged: one of its triggers already fails alone in the same kind of placement")
+        if ("panic" in f0 or "crash" in f0) and not c["single"]:
             c["rounds"] = [{"fixed": c["src"], "n_fixes": 0}]
+            c["orig"] = beh(r0)
+            deferred.append((c, f0))      # judged after the single-trigger programs (below)
             continue
         if "panic" in f0 or "crash" in f0:
             if c["single"]:
@@ -316,6 +318,15 @@ def run(ctx):
             c["rounds"].append(ff)
             nxt.append(c)
         live = nxt
+    for c, f0 in deferred:
+        if single_fails(failed_single, c):
+            ctx.outcome("pair not judged: one of its triggers already fails alone in the same kind of placement")
+            continue
+        msg = re.sub(r"\d+", "N", (f0.get("panic") or f0.get("crash")).split(" of `")[0])[:60]
+        ctx.violation(signature(c, None, f"check --fix panics ({msg})", 1),
+                      {"src": c["src"], "rounds": [], "panic": (f0.get("panic") or f0.get("crash"))[-200:], "trigger": c["trigger"], "placement": c["placement"]},
+                      cli_cmd="garden check --fix --stdout <file>")
+        ctx.outcome("violation:panic")
     # CLI confirmation
     for sig, v in list(ctx.violations.items())[:15]:
         d = v["detail"]
@@ -362,12 +373,15 @@ def signature(c, lints, what, rnd):
     """lint(s) whose fixes were applied + trigger shape where the shape matters + placement class + what differs."""
     what = re.sub(r" \(.*\)$", "", what) if what.startswith("run ") else what
     head = "+".join(lints) if lints else c["lint"]
-    if c["single"] and "/" in c["lint"]:
+    if c["single"] and "/" in c["lint"] and c["lint"] not in head:
         head = head.replace(c["lint"].split("/")[0], c["lint"])
     shape = f" [{c['trigger']}]" if any(l in SHAPE_LINTS for l in (lints or [c["lint"]])) or c["lint"] in SHAPE_LINTS else ""
     if not c["single"]:
         shape = f" [{c['lint']}]"
     place = PLACEMENT_CLASS.get(c["placement"], c["placement"])
+    if c.get("kind") == "expr":
+        # expression-level triggers: the statement-level placement is immaterial, only whether the line is shared
+        place = "line shared with other code" if place in ("line shared with other code", "twice on one line") else "any placement on its own line(s)"
     return f"{head}{shape}, {place}: {what}" + (f" (in round {rnd})" if rnd > 1 else "")
 
 
